@@ -2,6 +2,7 @@
 
 #include <stdlib.h>
 #include <errno.h>
+#include <math.h>
 
 
 /* Static functions */
@@ -857,10 +858,15 @@ static void _set_sshort(char* data, size_t pos, double value)
   return;
 }
 
+/* FFF_ROUND goes through `int`: it truncates (and overflows) values beyond
+   31 bits, which the unsigned int, long and unsigned long types can hold.
+   Round these in double precision instead. */
+#define _ROUND_DOUBLE(a) (floor((a)+0.5))
+
 static void _set_uint(char* data, size_t pos, double value)
 {
   unsigned int* buf = (unsigned int*)data;
-  buf[pos] = (unsigned int)(FFF_ROUND(value));
+  buf[pos] = (unsigned int)(_ROUND_DOUBLE(value));
   return;
 }
 
@@ -874,14 +880,14 @@ static void _set_int(char* data, size_t pos, double value)
 static void _set_ulong(char* data, size_t pos, double value)
 {
   unsigned long int* buf = (unsigned long int*)data;
-  buf[pos] = (unsigned long int)(FFF_ROUND(value));
+  buf[pos] = (unsigned long int)(_ROUND_DOUBLE(value));
   return;
 }
 
 static void _set_long(char* data, size_t pos, double value)
 {
   long int* buf = (long int*)data;
-  buf[pos] = (long int)(FFF_ROUND(value));
+  buf[pos] = (long int)(_ROUND_DOUBLE(value));
   return;
 }
 
